@@ -331,23 +331,28 @@ class SFTPServer(BaseSFTP, SubsystemHandler):
 
         sum_out = bytes()
         offset = start
-        while offset < start + length:
+        at_eof = False
+        while offset < start + length and not at_eof:
             blocklen = min(block_size, start + length - offset)
-            # don't try to read more than about 64KB at a time
-            chunklen = min(blocklen, 65536)
             count = 0
             hash_obj = alg()
             while count < blocklen:
-                data = f.read(offset, chunklen)
+                # don't try to read more than about 64KB at a time
+                data = f.read(offset, min(blocklen - count, 65536))
                 if not isinstance(data, bytes):
                     self._send_status(
                         request_number, data, "Unable to hash file"
                     )
                     return
+                if len(data) == 0:
+                    # the range ends at the end of the file
+                    at_eof = True
+                    break
                 hash_obj.update(data)
                 count += len(data)
-                offset += count
-            sum_out += hash_obj.digest()
+                offset += len(data)
+            if count > 0:
+                sum_out += hash_obj.digest()
 
         msg = Message()
         msg.add_int(request_number)
